@@ -18,8 +18,8 @@ def cases(ctx):
         "labels, 0x00 runs, \\000 label below, maximal name} (oracle on all; model comparison on all in the thorough "
         "tier, on a fixed subset in the quick tier)"
     )
-    n = ctx.n(700, 40000)
-    n_model = ctx.n(700, 4000)  # random triples beyond this many are oracle-only (kind suffix -o)
+    n = ctx.n(500, 40000)
+    n_model = ctx.n(500, 4000)  # random triples beyond this many are oracle-only (kind suffix -o)
     for it in range(n):
         a = nl.gen_labels(rng)
         b = nl.related(rng, a) if rng.random() < 0.8 else nl.gen_labels(rng)
@@ -31,9 +31,10 @@ def cases(ctx):
         yield "cmp" + sfx, [2, b, c]
         yield "cmp" + sfx, [2, a, c]
         yield "triple", [20, a, b, c]
+        yield "richcmp" + sfx, [19, a, b]
         yield "hash" + sfx, [3, a]
         yield "hash" + sfx, [3, nl.case_variant(rng, a)]
-    for _ in range(ctx.n(400, 2500)):
+    for _ in range(ctx.n(300, 2500)):
         a = nl.gen_labels(rng)
         ro = rng.random()
         if ro < 0.75:
@@ -73,7 +74,7 @@ def cases(ctx):
         if nl.fits(q):
             yield "namedict", [22, keys, q]
     # successor / predecessor: last octet sweeps, boundary lengths
-    for _ in range(ctx.n(300, 1500)):
+    for _ in range(ctx.n(200, 1500)):
         o = nl.gen_labels(rng, absolute=True, budget=rng.choice([5, 12, 60]))
         shape = rng.choice(["short", "l63", "max", "rand", "rel"])
         yield from succ_cases(rng, o, shape, rng.choice(nl.INTERESTING + [rng.randrange(256)]))
@@ -135,7 +136,7 @@ def succ_sweep(ctx):
                 special = x in SPECIAL
                 if sum(len(l) + 1 for l in n) == 255 or shape in ("l63", "chop", "short"):
                     for p in (0, 1):
-                        model = (shape in ("l63", "max", "chop") and p == 0) or (special and (p == 0 or r == 0))
+                        model = (shape in ("l63", "max") and p == 0) or (shape == "chop" and p == 0 and r in (0, 2)) or (special and (p == 0 or r == 0))
                         yield emit("succ", [14, n, o, p], model)
                 if r in (0, 1) or special:
                     for p in (0, 1):
@@ -288,6 +289,14 @@ def oracle(ctx, kind, case, out):
         else:
             if r != 0 or nlab != 0 or sub or sup:
                 fail("relation across relativity must be NONE/0")
+    elif op == 19:
+        eq, ne, lt, le, ge, gt, heq = out
+        a, b = case[1], case[2]
+        c = canon_cmp(a, b)
+        if (bool(eq), bool(ne), bool(lt), bool(le), bool(ge), bool(gt)) != (c == 0, c != 0, c < 0, c <= 0, c >= 0, c > 0):
+            fail("rich comparison operators disagree with the RFC 4034 canonical order")
+        if eq and not heq:
+            fail("equal names hash differently")
     elif op == 20:
         ab, bc, ac, ba, eq, heq, lt, le, gt, ge, ne = out
         a, b, c = case[1:4]
